@@ -176,44 +176,51 @@ theorem C01_tenmat_accepts [Zero α] (T : Dense α) (hT : T.WF) (rd cd : Option 
   obtain ⟨r, c, _, _, h⟩ := toTenmat_valid T hT rd cd cyc hv
   exact ⟨_, h⟩
 
-/-- The `tenmat` constructor (data with at least one cell): whenever
-`tenmat(data, rdims, cdims, tshape)` is accepted the object holds the given values as a matrix (a
-vector becomes one row), reports the given `tshape` (default: the matrix shape), the pair
+/-- The `tenmat` constructor (data with at least one cell; the code after commit 8a75720): whenever
+`tenmat(data, rdims, cdims, tshape)` is accepted the object holds the given values (a matrix
+argument is kept as it is), reports the given `tshape` (default: the matrix shape), the pair
 `gather_wrap_dims` derives from the arguments as `rindices` / `cindices` — a permutation of the
-modes —, and matrix and tensor have equally many cells.
-PARTIAL: the clause "matrix shape = (prod tshape[rindices], prod tshape[cindices])" is missing
-because the code does not establish it — it only compares the PRODUCT of the two side sizes with
-the cell count (`C01_tenmat_ctor_shape_counterexample`); under that extra hypothesis the object
-is well-formed (`C01_tenmat_ctor_wf`) and `C01_tenmat_toTensor` applies. -/
-theorem C01_tenmat_ctor_reports_partial (data : Dense α) (rd cd ts : Option (List Nat)) (M : Tenmat α)
+modes —, and its matrix has exactly the shape `(prod tshape[rindices], prod tshape[cindices])`
+(a vector argument is reshaped to it, first index fastest), which it also reports as `shape`,
+with `ndims = 2` and as many cells as the data. -/
+theorem C01_tenmat_ctor_reports (data : Dense α) (rd cd ts : Option (List Nat)) (M : Tenmat α)
     (hpos : numel data.shape ≠ 0) (h : Tenmat.mk? data rd cd ts = .ok M) :
     M.data.data = data.data ∧
-    (M.data.shape = data.shape ∨ ∃ n, data.shape = [n] ∧ M.data.shape = [1, n]) ∧
-    M.data.shape.length = 2 ∧
-    M.tshape = ts.getD M.data.shape ∧
+    (data.shape.length = 2 → M.data = data) ∧
+    M.tshape = ts.getD data.shape ∧
     gatherWrapDims M.tshape.length rd cd none = .ok (M.rdims, M.cdims) ∧
     isPermOf (M.rdims ++ M.cdims) M.tshape.length = true ∧
-    numel M.data.shape = numel M.tshape ∧
-    numel (gather M.tshape M.rdims) * numel (gather M.tshape M.cdims) = numel M.data.shape :=
+    M.data.shape = [numel (gather M.tshape M.rdims), numel (gather M.tshape M.cdims)] ∧
+    numel M.data.shape = numel data.shape ∧
+    M.shapeProp = [numel (gather M.tshape M.rdims), numel (gather M.tshape M.cdims)] ∧ M.ndims = 2 :=
   tenmat_ctor_spec data rd cd ts M hpos h
 
-/-- … and when the matrix does have the two side sizes as its extents, the constructed object is
-a well-formed `tenmat`. -/
+/-- … hence for data with one value per cell the constructed object is a well-formed `tenmat`
+(and `C01_tenmat_toTensor` / `C01_double_tenmat` apply to it). -/
 theorem C01_tenmat_ctor_wf (data : Dense α) (rd cd ts : Option (List Nat)) (M : Tenmat α)
-    (hpos : numel data.shape ≠ 0) (hd : data.WF) (h : Tenmat.mk? data rd cd ts = .ok M)
-    (hshape : M.data.shape = [numel (gather M.tshape M.rdims), numel (gather M.tshape M.cdims)]) :
-    M.WF := tenmat_ctor_wf data rd cd ts M hpos hd h hshape
+    (hpos : numel data.shape ≠ 0) (hd : data.WF) (h : Tenmat.mk? data rd cd ts = .ok M) : M.WF :=
+  tenmat_ctor_wf data rd cd ts M hpos hd h
 
-/-- The code accepts a `2 × 6` matrix for the split rows = mode 0, columns = mode 1 of a
-`3 × 4` tensor: the object then reports the matrix shape `(2, 6)` although the split it reports
-prescribes `(3, 4)`. -/
-theorem C01_tenmat_ctor_shape_counterexample :
-    Tenmat.mk? (⟨[2, 6], [0, 1, 2, 3, 4, 5, 6, 7, 8, 9, 10, 11]⟩ : Dense Int) (some [0]) (some [1]) (some [3, 4]) =
+/-- a matrix whose shape is not `(prod tshape[r], prod tshape[c])` for the pair `(r, c)` that
+`gather_wrap_dims` derives is refused. -/
+theorem C01_tenmat_ctor_rejects_shape (data : Dense α) (rd cd ts : Option (List Nat)) (r c : List Nat)
+    (hpos : numel data.shape ≠ 0) (h2 : data.shape.length = 2)
+    (hg : gatherWrapDims (ts.getD data.shape).length rd cd none = .ok (r, c))
+    (hne : data.shape ≠ [numel (gather (ts.getD data.shape) r), numel (gather (ts.getD data.shape) c)]) :
+    Tenmat.mk? data rd cd ts = .error .reject :=
+  tenmat_ctor_rejects_shape data rd cd ts r c hpos h2 hg hne
+
+/-- The pinned code (its only test relating the matrix to the split compared the PRODUCT of the
+two side sizes with the cell count, `Tenmat.mkCorePinned`) accepted a `2 × 6` matrix for the split
+rows = mode 0, columns = mode 1 of a `3 × 4` tensor; the repaired code refuses it, and reshapes a
+vector of 6 for the split 0 | 1 of a `2 × 3` tensor to `2 × 3`. -/
+theorem C01_tenmat_ctor_pinned_counterexample :
+    Tenmat.mkCorePinned (⟨[2, 6], [0, 1, 2, 3, 4, 5, 6, 7, 8, 9, 10, 11]⟩ : Dense Int) (some [0]) (some [1]) (some [3, 4]) =
       .ok ⟨[3, 4], [0], [1], ⟨[2, 6], [0, 1, 2, 3, 4, 5, 6, 7, 8, 9, 10, 11]⟩⟩ ∧
-    ([2, 6] : List Nat) ≠ [numel (gather [3, 4] [0]), numel (gather [3, 4] [1])] := by
-  constructor
-  · rfl
-  · decide
+    Tenmat.mk? (⟨[2, 6], [0, 1, 2, 3, 4, 5, 6, 7, 8, 9, 10, 11]⟩ : Dense Int) (some [0]) (some [1]) (some [3, 4]) =
+      .error .reject ∧
+    Tenmat.mk? (⟨[6], [0, 1, 2, 3, 4, 5]⟩ : Dense Int) (some [0]) (some [1]) (some [2, 3]) =
+      .ok ⟨[2, 3], [0], [1], ⟨[2, 3], [0, 1, 2, 3, 4, 5]⟩⟩ := ⟨rfl, rfl, rfl⟩
 
 /-- `S.to_sptenmat(rdims, cdims, cdims_cyclic)` of a well-formed sparse tensor, every argument
 convention: whenever the call is accepted the object reports the tensor's shape as `tshape`, the
